@@ -29,8 +29,16 @@
 (* message itself (CallUnary, CallServerStream) -- so does the call, without *)
 (* blocking.                                                                *)
 (*                                                                         *)
-(* sc = [proto, kind : "unary"|"client"|"server"|"bidi", sizes : Seq(Nat),  *)
-(*       cut : Nat, fault : "err"|"ctxc"|"ctxd", poison : Nat]              *)
+(* The same shape covers a HANDLER whose ResponseWriter stops accepting     *)
+(* writes (the client went away): kinds "hserver" / "hbidi", fault "werr";  *)
+(* the unit is then one Write call -- a message is a prefix write and a     *)
+(* payload write -- and `cut` the number of writes that succeed.  Every     *)
+(* Send that needs a refused write fails with a coded error, the handler    *)
+(* returns, nothing panics.                                                 *)
+(*                                                                         *)
+(* sc = [proto, kind : "unary"|"client"|"server"|"bidi"|"hserver"|"hbidi",  *)
+(*       sizes : Seq(Nat), cut : Nat, fault : "err"|"ctxc"|"ctxd"|"werr",   *)
+(*       poison : Nat]                                                      *)
 (***************************************************************************)
 EXTENDS Integers, Sequences, FiniteSets, TLC
 
@@ -45,8 +53,10 @@ VARIABLES sc,
 vars == <<sc, consumed, struck, si, part, results, final>>
 
 Poison(s) == IF "poison" \in DOMAIN s THEN s.poison ELSE 0
+Handler(s) == s.kind \in {"hserver", "hbidi"}
+Pre(s) == IF Handler(s) THEN 1 ELSE 5                \* handler side: units are Write calls
 RECURSIVE EndOf(_, _)
-EndOf(s, i) == IF i = 0 THEN 0 ELSE (IF i = Poison(s) THEN 0 ELSE 5 + s.sizes[i]) + EndOf(s, i - 1)
+EndOf(s, i) == IF i = 0 THEN 0 ELSE (IF i = Poison(s) THEN 0 ELSE Pre(s) + s.sizes[i]) + EndOf(s, i - 1)
 StartOf(s, i) == EndOf(s, i - 1)
 Total(s) == EndOf(s, Len(s.sizes))
 Cut(s) == IF s.cut > Total(s) THEN Total(s) ELSE s.cut
@@ -60,9 +70,12 @@ Sent(s, i) == EndOf(s, i) <= Cut(s)
 SurelySent(s, i) == IF CtxFault(s) THEN EndOf(s, i) <= Cut(s) - 1 ELSE Sent(s, i)
 SendOutcomes(s, i) == IF i = Poison(s) THEN {"internal"}
                       ELSE IF SurelySent(s, i) THEN {"ok"}
+                      ELSE IF Handler(s) THEN {"fail"}
                       ELSE (IF Sent(s, i) THEN {"ok"} ELSE {})
                            \cup (IF CtxFault(s) THEN {"eof", "ctx"} ELSE {"eof"})
-FinalCodes(s) == IF Poison(s) > 0 /\ s.kind \in {"unary", "server"} THEN {13}
+AllSent(s) == Total(s) <= Cut(s)
+FinalCodes(s) == IF Handler(s) THEN (IF AllSent(s) THEN {0} ELSE 1..16)
+                 ELSE IF Poison(s) > 0 /\ s.kind \in {"unary", "server"} THEN {13}
                  ELSE IF CtxFault(s) THEN {CtxCode(s)} ELSE 1..16
 
 (* ---- state machine: transport and writer as separate processes ---- *)
@@ -74,7 +87,7 @@ ResetTo(s)  == /\ sc' = s /\ consumed' = 0 /\ struck' = FALSE /\ si' = 1 /\ part
 \* the bytes the writer has offered so far: everything up to the end of the pending write
 Offered == IF si > Len(sc.sizes) THEN Total(sc)
            ELSE IF part = "idle" THEN StartOf(sc, si)
-           ELSE IF part = "prefix" THEN StartOf(sc, si) + 5
+           ELSE IF part = "prefix" THEN StartOf(sc, si) + Pre(sc)
            ELSE EndOf(sc, si)
 
 \* transport: take one more offered byte; the fault strikes when cut - 1 bytes are gone
@@ -97,7 +110,7 @@ WPoison == /\ final = 0 /\ si = Poison(sc) /\ part = "idle"
            /\ results' = Append(results, "internal") /\ si' = si + 1
            /\ UNCHANGED <<sc, consumed, struck, part, final>>
 \* a write returns nil once the transport has consumed all of it
-WPrefixDone == /\ part = "prefix" /\ consumed >= StartOf(sc, si) + 5
+WPrefixDone == /\ part = "prefix" /\ consumed >= StartOf(sc, si) + Pre(sc)
                /\ part' = "payload" /\ UNCHANGED <<sc, consumed, struck, si, results, final>>
 WPayloadDone == /\ part = "payload" /\ consumed >= EndOf(sc, si)
                 /\ results' = Append(results, "ok") /\ si' = si + 1 /\ part' = "idle"
@@ -105,13 +118,14 @@ WPayloadDone == /\ part = "payload" /\ consumed >= EndOf(sc, si)
 \* a write that can no longer complete fails: closed pipe (io.EOF) -- or the context's error if the write had not
 \* begun when the context ended
 WFail == /\ part \in {"prefix", "payload"} /\ Dead
-         /\ consumed < (IF part = "prefix" THEN StartOf(sc, si) + 5 ELSE EndOf(sc, si))
-         /\ \E r \in (IF CtxFault(sc) THEN {"eof", "ctx"} ELSE {"eof"}) : results' = Append(results, r)
+         /\ consumed < (IF part = "prefix" THEN StartOf(sc, si) + Pre(sc) ELSE EndOf(sc, si))
+         /\ \E r \in (IF Handler(sc) THEN {"fail"} ELSE IF CtxFault(sc) THEN {"eof", "ctx"} ELSE {"eof"}) :
+              results' = Append(results, r)
          /\ si' = si + 1 /\ part' = "idle"
          /\ UNCHANGED <<sc, consumed, struck, final>>
 \* the final operation: the call fails with a coded error
-WFinal == /\ final = 0 /\ part = "idle" /\ (Dead \/ Poison(sc) > 0)
-          /\ \E c \in FinalCodes(sc) : final' = c
+WFinal == /\ final = 0 /\ part = "idle" /\ (Dead \/ Poison(sc) > 0) /\ (Handler(sc) => si > Len(sc.sizes))
+          /\ \E c \in FinalCodes(sc) : final' = IF c = 0 THEN -1 ELSE c       \* (-1: the handler finished without an error)
           /\ UNCHANGED <<sc, consumed, struck, si, part, results>>
 
 Next == TTake \/ TStrike \/ WBegin \/ WPoison \/ WPrefixDone \/ WPayloadDone \/ WFail \/ WFinal
